@@ -224,11 +224,11 @@ def make_cases(tier, profile):
         cases.append(dict(name=name, pure='interleave', actors=actors, partial=partial or {}, spec=dict(base, **(spec or {})), **kw))
     only_carol = {'exists_#x': True, 'mem_carol_#x': True, 'mem_alice_#x': False, 'mem_bob_#x': False}
     all_x = {'exists_#x': True, 'mem_carol_#x': True, 'mem_alice_#x': True, 'mem_bob_#x': True}
-    add('two connections claim the same nick', [U('c1', None, 'u1', 'NICK zed'), U('c2', None, 'u2', 'NICK zed')], extra=[('one_owner', 'one_owner')], claimed='zed')
+    add('two connections claim the same nick', [U('c1', None, 'u1', 'NICK zed'), U('c2', None, 'u2', 'NICK zed')], extra=[('one_owner', 'one_owner')], claimed='zed', dsplit=2)
     add('claim by NICK against claim completed by USER', [U('c1', 'zed', None, 'USER u1 0 * :r'), U('c2', None, 'u2', 'NICK zed')], extra=[('one_owner', 'one_owner')], claimed='zed')
     add('two claims with a server password (blocking verification)', [U('c1', None, 'u1', 'NICK zed', password='goodpw'), U('c2', None, 'u2', 'NICK zed', password='goodpw')],
         spec=dict(password='goodpw'), extra=[('one_owner', 'one_owner')], claimed='zed', dsplit=4)
-    add('registered NICK against a registering connection', [R('alice', 'NICK zed'), U('c2', None, 'u2', 'NICK zed')])
+    add('registered NICK against a registering connection', [R('alice', 'NICK zed'), U('c2', None, 'u2', 'NICK zed')], dsplit=2)
     add('two first JOINs of a new channel', [R('alice', 'JOIN #new'), R('bob', 'JOIN #new')], extra=[('one_founder', 'one_founder')], created='#new')
     add('two JOINs into the last free place of a +l channel', [R('alice', 'JOIN #x'), R('bob', 'JOIN #x')], partial=dict(only_carol, **{'haslimit_#x': True, 'limit_#x': 2}),
         spec=dict(sym_limit=True), extra=[('limit_kept', 'limit_kept')], limited=('#x', 2))
